@@ -58,6 +58,11 @@ def gen_session(rng, wills=False, flow=False):
                 connect()
                 if rng.random() < 0.5:
                     acks(cur)
+                if rng.random() < 0.3:
+                    # time passes while the (possibly resumed) session is ONLINE, then the expiry sweep runs: the deadline
+                    # the session had while it was offline must not count any more (seed C05-3)
+                    ops.append(f"api backdate cx {rng.choice([40, 310, 650, 8000])}")
+                    ops.append("api expire")
         else:
             if r < 0.2:
                 pid += 1
@@ -85,8 +90,10 @@ def gen_session(rng, wills=False, flow=False):
                 connect()          # take-over: a second connection with the same client id
             elif r < 0.92:
                 ops.append("api term cx"); cur = None
-            elif r < 0.96:
-                ops.append(f"api backdate cx {rng.choice([10, 40, 70, 310])}")
+            elif r < 0.95:
+                ops.append(f"api backdate cx {rng.choice([10, 40, 70, 310, 8000])}")
+            elif r < 0.975:
+                ops.append("api expire")
             else:
                 ops.append(f"ping {cur}")
     if cur is None:
